@@ -7,6 +7,7 @@ with the extractor's own namespace table) - python-pptx is not asked what it wro
 from __future__ import annotations
 
 import os
+from lxml import etree
 
 from mbt import engine as E
 from mbt.extract import oxml_decls as D
@@ -257,6 +258,16 @@ def replay_one(job) -> dict:
             sib.append(holder)
             for k in inner:
                 holder.append(_mk(k, uri2pfx))
+    if len(job) > 6 and job[6]:
+        # the same parent as ANOTHER serialiser writes it: every namespace bound to a prefix of its own choosing (ns0:, ns1:, ...) -
+        # the same document to any XML reader; the parent is re-parsed from that text by the library's parser
+        import re as _re
+        from pptx.oxml import parse_xml
+        xml = etree.tostring(parent).decode()
+        for n_, (pfx, uri) in enumerate(sorted({(k_, v_) for el_ in parent.iter() for k_, v_ in el_.nsmap.items() if k_})):
+            xml = xml.replace('xmlns:%s="%s"' % (pfx, uri), 'xmlns:zq%d="%s"' % (n_, uri))
+            xml = _re.sub(r"(</?)%s:" % _re.escape(pfx), r"\1zq%d:" % n_, xml)
+        parent = parse_xml(xml)
     keyed = "#" in child or any("#" in k for k in kids)
     initial = list(parent)
     before = _project(parent, uri2pfx, keyed)
